@@ -754,6 +754,11 @@ def ddl_facts(prog, rep, rule="SCHEMA"):
         else:
             ok = v is not None and t.startswith("AutoField(")
         rep.check(ok, rule, mname, f"{mname}.{fld}", t, f"{mname}.{fld} = {t}", f"{ci.mod.relpath}:{getattr(v, 'lineno', ci.node.lineno)}")
+    # the tables accept every row the interface accepts: a CHECK constraint turns an event the other backends store (a negative
+    # duration, an empty data text) into an IntegrityError in the middle of a statement
+    for s_ in sites:
+        for ck in getattr(s_.stmt, "checks", []) if s_.stmt.kind == "create_table" else []:
+            rep.violation(rule, s_.fi.short, f"CHECK ({ck[:40]})", f"table {s_.stmt.table} is created with `CHECK ({ck})`: a row the storage interface accepts (e.g. an event with a negative duration, which the other backends store and the legacy database may hold) makes the INSERT raise; inside executemany the rows before it are already inserted but never counted for the commit bookkeeping, and a migration stops at that event for good", s_.loc())
     # a bucket's row keeps its rowid for as long as the bucket exists: the events are tied to that number
     n_b = 0
     for s_ in sites:
